@@ -42,6 +42,7 @@ const (
 type Crashed struct{ At int }
 
 type FS struct {
+	dirs    map[string]bool
 	files   map[string]*inode
 	nextIno int
 	Log     []Op
@@ -49,6 +50,16 @@ type FS struct {
 	FaultAt   int
 	FaultKind string
 	muts      int // number of mutating operations so far
+}
+
+// OnOp, when set, is called before every file-system operation (harnesses under the controlled scheduler
+// turn it into a scheduling point: operations of different threads on one file do not commute).
+var OnOp func(kind, path string)
+
+func hook(kind, path string) {
+	if OnOp != nil {
+		OnOp(kind, path)
+	}
 }
 
 // Cur is the file system seen by redirected code.
@@ -178,6 +189,7 @@ type File struct {
 }
 
 func OpenFile(name string, flag int, perm os.FileMode) (*File, error) {
+	hook("open", name)
 	f := Cur
 	mut := flag&(os.O_CREATE|os.O_TRUNC|os.O_WRONLY|os.O_RDWR|os.O_APPEND) != 0
 	if mut {
@@ -208,6 +220,7 @@ func Create(name string) (*File, error) {
 func (fl *File) Name() string { return fl.name }
 
 func (fl *File) Write(b []byte) (int, error) {
+	hook("write", fl.name)
 	if fl.closed {
 		return 0, os.ErrClosed
 	}
@@ -236,6 +249,7 @@ func (fl *File) put(b []byte) {
 func (fl *File) WriteString(s string) (int, error) { return fl.Write([]byte(s)) }
 
 func (fl *File) Read(b []byte) (int, error) {
+	hook("read", fl.name)
 	if fl.closed {
 		return 0, os.ErrClosed
 	}
@@ -260,6 +274,7 @@ func (fl *File) Seek(off int64, whence int) (int64, error) {
 }
 
 func (fl *File) Sync() error {
+	hook("sync", fl.name)
 	if fl.closed {
 		return os.ErrClosed
 	}
@@ -272,6 +287,7 @@ func (fl *File) Sync() error {
 }
 
 func (fl *File) Close() error {
+	hook("close", fl.name)
 	if fl.closed {
 		return os.ErrClosed
 	}
@@ -284,9 +300,14 @@ func (fl *File) Close() error {
 	return nil
 }
 
-func (fl *File) Stat() (os.FileInfo, error) { return info{fl.name, fl.ino}, nil }
+func (fl *File) Stat() (os.FileInfo, error) {
+	hook("fstat", fl.name)
+	// like fstat: the name reported is the one the file was opened with
+	return info{base(fl.name), fl.ino}, nil
+}
 
 func Rename(oldpath, newpath string) error {
+	hook("rename", oldpath)
 	f := Cur
 	if fault := f.step("rename", oldpath+"->"+newpath, 0); fault == FaultError || fault == FaultShort {
 		return &os.LinkError{Op: "rename", Old: oldpath, New: newpath, Err: syscall.EIO}
@@ -301,6 +322,7 @@ func Rename(oldpath, newpath string) error {
 }
 
 func Remove(name string) error {
+	hook("remove", name)
 	f := Cur
 	if fault := f.step("remove", name, 0); fault == FaultError || fault == FaultShort {
 		return &os.PathError{Op: "remove", Path: name, Err: syscall.EIO}
@@ -313,16 +335,138 @@ func Remove(name string) error {
 }
 
 func Stat(name string) (os.FileInfo, error) {
+	hook("stat", name)
 	ino, ok := Cur.files[name]
 	if !ok {
+		if Cur.isDir(name) {
+			return dirInfo{base(name)}, nil
+		}
 		return nil, notExist("stat", name)
 	}
-	return info{name, ino}, nil
+	return info{base(name), ino}, nil
 }
+
+func base(name string) string {
+	for i := len(name) - 1; i >= 0; i-- {
+		if name[i] == '/' {
+			return name[i+1:]
+		}
+	}
+	return name
+}
+
+// directories are implicit: a path is a directory when some file lives below it (or it was made with MkdirAll)
+func (f *FS) isDir(name string) bool {
+	if name == "/" || name == "" {
+		return true
+	}
+	if f.dirs[name] {
+		return true
+	}
+	prefix := name
+	if prefix[len(prefix)-1] != '/' {
+		prefix += "/"
+	}
+	for n := range f.files {
+		if len(n) > len(prefix) && n[:len(prefix)] == prefix {
+			return true
+		}
+	}
+	for n := range f.dirs {
+		if len(n) > len(prefix) && n[:len(prefix)] == prefix {
+			return true
+		}
+	}
+	return false
+}
+
+func MkdirAll(name string, perm os.FileMode) error {
+	if Cur.dirs == nil {
+		Cur.dirs = map[string]bool{}
+	}
+	Cur.dirs[name] = true
+	return nil
+}
+
+func Readlink(name string) (string, error) {
+	return "", &os.PathError{Op: "readlink", Path: name, Err: syscall.EINVAL}
+}
+
+func Getwd() (string, error) { return "/", nil }
+
+// Walk is filepath.Walk over the in-memory tree (lexical order, files only plus the root).
+func Walk(root string, fn func(path string, info os.FileInfo, err error) error) error {
+	hook("walk", root)
+	if !Cur.isDir(root) {
+		if ino, ok := Cur.files[root]; ok {
+			return fn(root, info{base(root), ino}, nil)
+		}
+		return fn(root, nil, notExist("lstat", root))
+	}
+	if err := fn(root, dirInfo{base(root)}, nil); err != nil {
+		return err
+	}
+	prefix := root
+	if prefix[len(prefix)-1] != '/' {
+		prefix += "/"
+	}
+	for _, n := range Cur.Names() {
+		if len(n) > len(prefix) && n[:len(prefix)] == prefix {
+			ino := Cur.files[n]
+			if ino == nil {
+				continue
+			}
+			if err := fn(n, info{base(n), ino}, nil); err != nil {
+				return err
+			}
+		}
+	}
+	return nil
+}
+
+// ---- environment side (harness) -----------------------------------------------------------------
+
+// Append adds data to a file (creating it), like an application writing its log.
+func (f *FS) Append(name string, data []byte) {
+	ino, ok := f.files[name]
+	if !ok {
+		f.nextIno++
+		ino = &inode{id: f.nextIno}
+		f.files[name] = ino
+	}
+	ino.data = append(ino.data, data...)
+	ino.synced = append([]byte{}, ino.data...)
+}
+
+// Truncate cuts a file to zero length (copytruncate rotation).
+func (f *FS) Truncate(name string) {
+	if ino, ok := f.files[name]; ok {
+		ino.data = nil
+		ino.synced = nil
+	}
+}
+
+// Move renames a file keeping its inode (rename rotation).
+func (f *FS) Move(oldpath, newpath string) {
+	if ino, ok := f.files[oldpath]; ok {
+		f.files[newpath] = ino
+		delete(f.files, oldpath)
+	}
+}
+
+type dirInfo struct{ name string }
+
+func (d dirInfo) Name() string       { return d.name }
+func (d dirInfo) Size() int64        { return 0 }
+func (d dirInfo) Mode() os.FileMode  { return os.ModeDir | 0o755 }
+func (d dirInfo) ModTime() time.Time { return time.Unix(0, 0) }
+func (d dirInfo) IsDir() bool        { return true }
+func (d dirInfo) Sys() any           { return &syscall.Stat_t{Ino: 1} }
 
 func Lstat(name string) (os.FileInfo, error) { return Stat(name) }
 
 func ReadFile(name string) ([]byte, error) {
+	hook("readfile", name)
 	ino, ok := Cur.files[name]
 	if !ok {
 		return nil, notExist("open", name)
